@@ -48,5 +48,9 @@ F_unk == {"unknownkey"}
 Yes == {TRUE}
 No == {FALSE}
 YesNo == {TRUE, FALSE}
+O_all == AllPrintOpts
+O_def == {Opt(TRUE, TRUE)}
+O_two == {Opt(TRUE, TRUE), Opt(FALSE, FALSE)}
+W_name == { [k |-> "name", v |-> "r1"] }
 F_all == {"unknownkey", "missingarrow", "wrongarrow"}
 =============================================================================
